@@ -1,7 +1,8 @@
 """Write seeded/<id>/meta.json from the patch, the confirmation logs and the sweep results."""
 import json, os, re, glob
 ROOT = '/verif/seeded'
-INITIAL_MISS = {'C15-6': 'the send loop was proved never to send the queue head early, but nothing stated that the queue is ordered by due time (dataclass field order is the sort key)',
+INITIAL_MISS = {'C05-10': 'the decimal lexical-form enumeration (no exponent form in xs:decimal) ran under C18 only; C05 re-checked the timestamp lemma but trusted the decimal one',
+                'C15-6': 'the send loop was proved never to send the queue head early, but nothing stated that the queue is ordered by due time (dataclass field order is the sort key)',
                 'C07-4': 'the deep-copy obligation of write_entity existed under C02 only and was reported there as undecided (copy.copy had no summary); C07 did not re-check that committed states share nothing with the entity the application keeps',
                 'C13-6': 'nothing constrained what ends up in the reason phrase of the status line (http.server encodes it as strict latin-1 and writes it verbatim); the bounded requests were ASCII',
                 'C03-5': 'the parent-version contract (copy appended to the result) was registered under C02 and C04 only',
